@@ -1099,7 +1099,7 @@ def _is_optional_init(func, attr):
         return False
     for n in sites:
         ok = False
-        for tnode, lab in cfg.guards(cfg.node_of(n).id):
+        for tnode, lab in cfg.strict_guards(cfg.node_of(n).id):
             te = cfg.nodes[tnode].expr
             if isinstance(te, ast.Compare) and len(te.ops) == 1 and \
                     isinstance(te.comparators[0], ast.Constant) and \
@@ -1138,7 +1138,7 @@ def _rule_shell_index(ctx, rid, func, attrs):
                 # a constant index is fine only under a guard `shell == <that constant>`
                 cv = const_value(idx)
                 nid = cfg.node_of(n).id
-                for tnode, lab in cfg.guards(nid):
+                for tnode, lab in cfg.strict_guards(nid):
                     te = cfg.nodes[tnode].expr
                     for sub in ast.walk(te):
                         if isinstance(sub, ast.Compare) and len(sub.ops) == 1 and \
